@@ -311,6 +311,7 @@ Value& MemberCONCATExpression::value(Context& ctx) const
     default:
       break;
     }
+    break;
 
     /* tabchar */
   case Type::TABCHAR:
